@@ -470,6 +470,18 @@ pub fn run(ctx: &mut Ctx) {
     ctx.replay_known_and_regressions(&replay);
     let n = ctx.tier.pick(8000, 150_000);
     ctx.run_prop("seed", n, || crate::gen::tape(200).prop_map(gen_case), judge);
+    // every ASCII passphrase length 0..=140 (salt lengths across the SHA-512 block size 128 and any small fixed
+    // buffer) and a few long ones, on one mnemonic per length class
+    let mut sweep = vec![];
+    let mut sp = crate::engine::Prng::new(ctx.sub_seed("ascii-lengths", 0));
+    for len in (0..=140usize).chain([255, 256, 257, 1000, 4095, 4096, 4097, 8192]) {
+        let e = sp.bytes([16, 20, 24, 28, 32][len % 5]);
+        let phrase = bip39::encode_phrase(&e);
+        let pass: String = (0..len).map(|_| (0x21 + sp.below(0x5e) as u8) as char).collect();
+        sweep.push(Case { phrase: phrase.clone(), passphrase: pass, phrase2: phrase });
+    }
+    ctx.run_cases("seed", &sweep, judge);
+    ctx.exhaustive_parts.push("every ASCII passphrase length 0..=140".into());
 
     // pair table on several mnemonics
     let mut p = crate::engine::Prng::new(ctx.sub_seed("pairs", 0));
@@ -517,6 +529,13 @@ pub fn run(ctx: &mut Ctx) {
                 _ => {}
             }
             cc.push(CliCase { phrase: base.phrase, passphrase: pw, via_env: i % 3 == 0 });
+        }
+        // long passphrases through both channels (a fixed-size secret buffer shows only beyond its size)
+        let mut lp = crate::engine::Prng::new(ctx.sub_seed("cli-long", 0));
+        for (i, len) in [4095usize, 4096, 4097, 8192, 65_536, 100_000].into_iter().enumerate() {
+            let phrase = bip39::encode_phrase(&lp.bytes(16));
+            let pw: String = (0..len).map(|_| (0x30 + lp.below(0x4a) as u8) as char).collect();
+            cc.push(CliCase { phrase, passphrase: pw, via_env: i % 2 == 0 });
         }
         ctx.run_cases("cli-export", &cc, judge_cli);
         if ctx.cls.count("timed-out") > 0 {
